@@ -17,7 +17,7 @@ RULE = (
     "question first. Oracle (differential + invariant): the outcome of every operation (value repr or exception "
     "class) equals the outcome of the same operation asked first on a database freshly rebuilt from the accepted "
     "registrations; the full registry snapshot (all public getters, both conversion functions sampled) is identical "
-    "before and after every read-only or failing step. Plus an exhaustive sweep of the shipped table: every category x (first and last listed unit, first and last unit of its type that is not listed) through the object-level uses (GetValidUnits of Scalar / Array / FixedArray / FractionScalar - the returned list is then edited by the caller -, IsValid, CreateCopy, ObtainQuantity, CheckCategoryUnit, +), after each of which the valid and default units of every category of that quantity type and the type's units read as before. Registrations include a unit whose symbol differs only by case from one that was looked up with FindUnitCase. Non-trivial = a query preceded by a failing lookup of the same "
+    "before and after every read-only or failing step. Plus an exhaustive sweep of the shipped table: every category x (first and last listed unit, first and last unit of its type that is not listed) through the object-level uses (GetValidUnits of Scalar / Array / FixedArray / FractionScalar - the returned list is then edited by the caller -, IsValid, CreateCopy, ObtainQuantity, CheckCategoryUnit, +), after each of which the valid and default units of every category of that quantity type and the type's units read as before. Registrations include a unit whose symbol differs only by case from one that was looked up with FindUnitCase. Conversions of an ndarray-backed Array are questions too: asked twice they give the same answer and the ndarray holds the same numbers afterwards. Non-trivial = a query preceded by a failing lookup of the same "
     "key, by an object-level GetValidUnits, or by a later registration; key = (database kind, query kind, preceding event kind, category/unit asked)."
 )
 ASSUMPTIONS = ["quantities and value objects obtained before a registration keep what they captured (documented design); only fresh queries are compared"]
@@ -119,6 +119,15 @@ def query(db, q):
             r = db.Convert(q[1], q[2], q[3], 3.5)
         elif k == "ConvertList":
             r = db.Convert(q[1], q[2], q[3], [1.0, 2.0])
+        elif k == "ArrayGetValues":
+            # a conversion is a question: the ndarray it is asked about holds the same numbers afterwards, and asking
+            # twice gives the same answer
+            vals = numpy.array([1.0, 2.0, -40.0])
+            A = Array(vals, q[2], q[1])
+            first = [float(t) for t in A.GetValues(q[3])]
+            second = [float(t) for t in A.GetValues(q[3])]
+            viaconvert = [float(t) for t in db.Convert(db.GetCategoryQuantityType(q[1]), q[2], q[3], numpy.array([1.0, 2.0, -40.0]))]
+            r = (first, "asked again: same" if second == first else "asked again: %r" % second, "operand kept" if [float(t) for t in vals] == [1.0, 2.0, -40.0] and [float(t) for t in A.GetValues()] == [1.0, 2.0, -40.0] else "operand now %r" % [float(t) for t in vals], viaconvert == first)
         elif k == "GetValue":
             r = Scalar(3.5, q[2], q[1]).GetValue(q[3])
         elif k == "Add":
@@ -266,6 +275,8 @@ class Machine:
         F = self.get_fresh()
         with env.pushed(F):
             want = query(F, q)
+        if kind == "ArrayGetValues" and got[0] == "ok" and ("operand now" in got[1] or "asked again: [" in got[1]):
+            ctx.fail("query_changed_its_operand_or_its_own_answer:%s" % kind, self.case, "step %d %r: %s" % (i, q, got[1]))
         if got != want:
             prev = sorted(set(e[0] for e in self.events)) or ["nothing"]
             hint = "after_registration" if any(e[0] == "registration" for e in self.events) else "after_queries_only"
@@ -333,11 +344,12 @@ def seq_strategy(base_kind, max_len):
             st.tuples(st.sampled_from(["CheckCategoryUnit", "ObtainQuantity", "Scalar", "ScalarGetValidUnits"]), c, u),
             st.tuples(st.sampled_from(["CheckQuantityTypeUnit", "GetInfo"]), st.one_of(t, c), u),
             st.tuples(st.sampled_from(["Convert", "ConvertList"]), st.one_of(t, c), u, u),
-            st.tuples(st.sampled_from(["GetValue", "Add", "Multiply", "CreateCopy"]), c, u, u),
+            st.tuples(st.sampled_from(["GetValue", "Add", "Multiply", "CreateCopy", "ArrayGetValues"]), c, u, u),
             st.tuples(st.sampled_from(["IsValid", "CheckValueForCategory"]), c, u, x),
             st.tuples(st.sampled_from(["AddPow", "MulPow", "DivPow", "MulRecipPow", "ArrayMulPow"]), c, u, u, st.sampled_from([2, 3, 2])),
             st.tuples(st.just("AddMixed"), c, u, c, u),
             st.sampled_from([("AddMixed", "L", "m", "depth", "km"), ("AddMixed", "depth", "cm", "L", "m")] if base_kind == "small" else [("AddMixed", "length", "m", "depth", "km"), ("AddMixed", "liquid volume", "m3", "gas volume", "ft3"), ("AddMixed", "depth", "cm", "length", "m")]),
+            st.sampled_from([("ArrayGetValues", "L", "m", "km"), ("ArrayGetValues", "depth", "km", "m")] if base_kind == "small" else [("ArrayGetValues", "temperature", "degC", "K"), ("ArrayGetValues", "temperature", "K", "degF"), ("ArrayGetValues", "pressure", "psi", "Pa"), ("ArrayGetValues", "length", "ft", "m")]),
             st.just(("GetQuantityTypes",)),
             st.just(("GetUnitsAll",)),
         ).map(list)
